@@ -422,11 +422,17 @@ Definition node_full : Prop :=
 Theorem node_full_refuted : ~ node_full.
 Proof. intros H. specialize (H k_Data [120%N]). discriminate H. Qed.
 
-(* which add_file calls are refused: a bad name first, then a bad content; everything else is stored *)
-Theorem blob_add_spec : forall name x,
-  blob_add name x =
-    match name_refusal name with
-    | Some e => Err e
-    | None => match x with FNotBytes | FBytes [] => Err ValueErr | FBytes b => Ok b end
-    end.
-Proof. intros name x. unfold blob_add. destruct (name_refusal name); [reflexivity|]. destruct x as [[|c b]|]; reflexivity. Qed.
+(* add_file stores the blob exactly when the name is acceptable and the content is a non-empty byte string *)
+Theorem blob_add_ok_iff : forall name x b,
+  blob_add name x = Ok b <-> name_refusal name = None /\ x = FBytes b /\ b <> [].
+Proof.
+  intros name x b. unfold blob_add, name_refusal. destruct name as [|c r].
+  - simpl. destruct x as [[|? ?]|]; split; try discriminate; intros (H & _); discriminate H.
+  - destruct (has_nul (c :: r)); [split; [discriminate | intros (H & _); discriminate H]|].
+    destruct (lN_eqb (c :: r) [46%N]); [split; [discriminate | intros (H & _); discriminate H]|].
+    destruct x as [[|c2 b2]|]; split; try discriminate.
+    + intros (_ & H & Hb). inversion H; subst. congruence.
+    + intros H. inversion H; subst. repeat split. discriminate.
+    + intros (_ & H & _). inversion H; subst. reflexivity.
+    + intros (_ & H & _). discriminate H.
+Qed.
